@@ -12,7 +12,7 @@ CHECKS = {
          "DESIGN.md §4 C01"),
  "C02": ("model-based PBT vs comparator-sorted model with probe keys between neighbours",
          X + "Ordered kinds x 5 comparators (incl. two many-to-one) x orders: Keys/Values/forward+backward iteration strictly ascending and equal to the model, least/greatest accessors, Floor/Ceiling against a model scan with exact found-flag, probes below/between/above.",
-         "Trusts the sorted model; B-tree, TreeSet and TreeBidiMap have no Floor/Ceiling (enumeration and ends only).",
+         "Trusts the sorted model; B-tree, TreeSet and TreeBidiMap have no Floor/Ceiling (enumeration and ends only); every walk is repeated with the same iterator after it ran off the end and was rewound (DESIGN §8.12).",
          "DESIGN.md §4 C02"),
  "C03": ("differential + model-based PBT: one script on three lists vs slice model, plus exhaustive index pairs",
          X + "Each script runs on ArrayList, SinglyLinkedList and DoublyLinkedList at once with wild indices, 0..4-value variadics and threshold-crossing bulk phases; Values/Size/Get/IndexOf/Contains compared with a slice model after every step; every pair of index operations at every index is enumerated for short lists.",
@@ -32,7 +32,7 @@ CHECKS = {
          "DESIGN.md §4 C06"),
  "C07": ("PBT over structured workloads: shape invariants from exported fields + counting-comparator work bounds; exhaustive permutation pairs",
          X + "Sorted/reverse/zig-zag/random/churn/drain workloads up to thousands of keys and all small permutation pairs; after every step (n<=64) the documented shape is validated from exported fields only, and every single Put/Remove/Get is checked against the property's comparator-call bound.",
-         "Colour rules not asserted (a red root satisfies C07); TreeMap/TreeSet/TreeBidiMap checked through work bounds only (their trees are unexported); TreeBidiMap bound is 4x per comparator.",
+         "Colour rules not asserted (a red root satisfies C07); TreeMap/TreeSet/TreeBidiMap checked through work bounds only (their trees are unexported); TreeBidiMap bound is 4x per comparator; bystander trees of other orders and comparators live next to the tree under test and are used between its steps (DESIGN §8.13).",
          "DESIGN.md §4 C07"),
  "C08": ("model-based PBT + bounded-exhaustive call sequences vs integer cursor model, all 18 iterator types",
          X + "Scripts of Next/Prev/Begin/End/First/Last/NextTo/PrevTo on states incl. empty, single, wrapped ring, heap after pops; every call's return value and Index/Key/Value after successful moves equal a cursor over the container's own sequence; all call sequences of length 5 for n in 0..3 on every type.",
@@ -60,7 +60,7 @@ CHECKS = {
          "DESIGN.md §4 C13"),
  "C14": ("model-based PBT over predicate and mapper families with callback logs and fingerprints",
          X + "Each/Any/All/Find/Select/Map on the 8 enumerable kinds x comparators: callback log equals the iterator sequence, Any/All/Find equal exists/for-all/first, Select/Map equal the kind's model fed the elements in order, results are new and keep the ordering discipline, receiver keeps contents and fingerprint.",
-         "Pure callbacks; Map results also compared exactly with a new container fed the mapped elements one by one (DESIGN §8.7); receivers may have a past (grown and shrunk, loaded, cleared) and are checked a second time after a mutation (DESIGN §8.11).",
+         "Pure callbacks; Map results also compared exactly with a new container fed the mapped elements one by one (DESIGN §8.7); receivers may have a past (grown and shrunk, loaded, cleared) and are checked a second time after a mutation (DESIGN §8.11); Select/Map results are compared with a container built by plain insertions, backwards and from the tail side (DESIGN §8.12).",
          "DESIGN.md §4 C14"),
  "C15": ("reflective API-surface PBT: invariants after every exported call + cleared-vs-fresh lock-step differential",
          X + "Histories over every exported method of all 21 kinds: Empty<=>Size==0, len(Values)==len(Keys)==Size, Full<=>Size==cap, String prefix, observers leave the fingerprint; after Clear a continuation is applied in lock-step to the cleared and to a fresh container and every result and observer must agree.",
@@ -68,7 +68,7 @@ CHECKS = {
          "DESIGN.md §4 C15"),
  "C16": ("metamorphic aliasing PBT with spare-capacity slices and deep fingerprint",
          X + "Writes to returned Values()/Keys() slices (incl. appends into spare capacity) never reach the container; later container changes never reach earlier slices; slices passed to variadic constructors and Add/Append/Prepend/Insert/Push are copied; GetSortedValues* return sorted contents and leave contents, order, fingerprint and pop sequence intact.",
-         "int elements (float64 with NaN for GetSortedValues).",
+         "int elements (float64 with NaN for GetSortedValues); GetSortedValuesFunc also with comparators of magnitude 2..6 and a many-to-one order (DESIGN §8.12).",
          "DESIGN.md §4 C16"),
  "C17": ("reflective API-surface fuzzing-style PBT: every exported method with wild arguments; panic = failing case, fd 1/2 capture, watchdog",
          X + "Every exported method of all 21 containers and all iterator methods (enumerated by reflection; evidence lists them) is called with wild indices, colliding/huge elements, empty variadics, hostile JSON bytes, synthesised callbacks/comparators/peers; no panic, no byte on stdout/stderr, every case within a 60 s watchdog.",
